@@ -53,7 +53,7 @@ RULE = (
 )
 BUDGET = {
     "quick": {"cases": 480, "shrink": False, "time_cap_s": 400},
-    "thorough": {"cases": 6000, "shrink": False, "time_cap_s": 2400},
+    "thorough": {"cases": 6000, "shrink": True, "shrink_cap_s": 120, "time_cap_s": 2400},
 }
 EPS = 2.0 ** -52
 K_TOL = 10.0
@@ -76,12 +76,19 @@ TOLERANCES = {
     "tc": "K*(xtol + rTol*Tc) + 5*|ideal-spline error of DeltaV|/|d DeltaV/dT|",
 }
 ASSUMPTIONS = [
-    "Closed-form branches of vlib.zoo_potentials are the oracle; 'true' vs 'merge' ends as given by instability().",
+    "Closed-form branches of vlib.zoo_potentials are the oracle; 'true' vs 'merge' ends as given by "
+    "zoo_potentials.existence_ext(): instability() with two corrections - (1) the Cubic1 symmetric phase at T0 is a "
+    "transcritical exchange of stability with phi_-(T) (a minimum continues for T<T0 at phi_-<0), i.e. merge-like, "
+    "not a true disappearance as DESIGN assumed; (2) a Z2x2 orthogonal instability is a true end only if "
+    "lh*ls < lhs^2/4 (subcritical), otherwise the mixed minimum continues the branch (merge-like).",
+    "Only Cubic1/low at T1 (saddle-node) and subcritical Z2x2 orthogonal instabilities are TRUE ends.",
     "The tracer promises rTol relative to max(|phi|,T) per RK45 step; the gradient of V is conserved along "
     "the ODE flow, so position errors are amplified by lambda_max(path)/lambda_min(node): this condition "
     "number (closed form) multiplies the forward tolerance; the gradient residual is the backward test.",
     "A tabulated abscissa beyond a true end by less than K*rTol*T is within the requested tolerance.",
-    "At a second-order merge end either stopping or continuing on the continuous branch (origin) is accepted.",
+    "At a merge-like end either stopping or continuing on the continuous branch (origin / phi_- / mixed point) is "
+    "accepted; whether the tracer stops there is recorded as a label together with the unit factor.",
+    "phaseTracerFirstStep is passed as documented (a fraction of dT).",
     "The interpolation table is observed through _interpolationPoints/_interpolationValues (getattr guard); "
     "public accessors are used for interpolated values, ranges and flags.",
 ]
